@@ -284,6 +284,27 @@ class _AugExpand(ast.NodeTransformer):
 
         class T(ast.NodeTransformer):
             def visit_AugAssign(s, a):
+                # counters kept in attributes / under constant keys: self.n += 1, d['k'] += 1
+                def plain(t):
+                    if isinstance(t, ast.Name):
+                        return True
+                    if isinstance(t, ast.Attribute):
+                        return plain(t.value)
+                    if isinstance(t, ast.Subscript):
+                        return isinstance(t.slice, ast.Constant) and plain(t.value)
+                    return False
+                if not isinstance(a.target, ast.Name) and plain(a.target) and \
+                        type(a.op) in (ast.Add, ast.Sub) and isinstance(a.value, ast.Constant) \
+                        and isinstance(a.value.value, int) and \
+                        not isinstance(a.value.value, bool):
+                    import copy as _copy
+                    load = _copy.deepcopy(a.target)
+                    for x in ast.walk(load):
+                        if hasattr(x, 'ctx'):
+                            x.ctx = ast.Load()
+                    return ast.copy_location(ast.Assign(
+                        targets=[a.target],
+                        value=ast.BinOp(left=load, op=type(a.op)(), right=a.value)), a)
                 if isinstance(a.target, ast.Name) and type(a.op) in _AugExpand.OPS and \
                         a.target.id not in arrays and a.target.id not in params and \
                         isinstance(a.value, ast.Constant) and \
